@@ -6,6 +6,7 @@ pub mod image;
 pub mod props;
 pub mod report;
 pub mod rng;
+pub mod scen;
 pub mod spec;
 pub mod target;
 pub mod tspec;
